@@ -79,7 +79,12 @@ func (kv *KVIndexer) IndexBlock(block *tmtypes.Block, txResults []*abci.Response
 		var cumulativeGasUsed uint64
 		for msgIndex, msg := range tx.GetMsgs() {
 			ethMsg := msg.(*evmtypes.MsgEthereumTx)
-			txHash := common.HexToHash(ethMsg.Hash)
+			// the recorded hash is only as good as ValidateBasic, which a failed tx may not have passed
+			ethTx := ethMsg.AsTransaction()
+			if ethTx == nil {
+				continue
+			}
+			txHash := ethTx.Hash()
 
 			txResult := haqqtypes.TxResult{
 				Height:     height,
@@ -88,6 +93,10 @@ func (kv *KVIndexer) IndexBlock(block *tmtypes.Block, txResults []*abci.Response
 				EthTxIndex: ethTxIndex,
 			}
 			if result.Code != abci.CodeTypeOK {
+				// an expected failure happens after the ante handler, never in the stateless checks before it
+				if err := ethMsg.ValidateBasic(); err != nil {
+					continue
+				}
 				// exceeds block gas limit scenario, set gas used to gas limit because that's what's charged by ante handler.
 				// some old versions don't emit any events, so workaround here directly.
 				txResult.GasUsed = ethMsg.GetGas()
